@@ -808,6 +808,12 @@ func extraDecoders() []extraDec {
 		encd.Init(lp)
 		add(encd.Encode(lp), nil)
 	}
+	// near-valid packets the packet API itself refuses to build
+	pk = append(pk, []byte{0x05, 0x04, 0x07, 0x00, 0x24, 0x00}, // Interest: empty name + ApplicationParameters
+		[]byte{0x05, 0x02, 0x07, 0x00},             // Interest: empty name
+		[]byte{0x06, 0x02, 0x07, 0x00},             // Data: empty name
+		[]byte{0x05, 0x00}, []byte{0x06, 0x00}, []byte{0x64, 0x00}, // empty Interest / Data / LpPacket
+		[]byte{0x05, 0x08, 0x07, 0x02, 0x08, 0x00, 0x2e, 0x00, 0x2c, 0x00}) // signature fields without parameters
 	return []extraDec{
 		{"spec.ReadPacket", func(r enc.ParseReader) (any, error) { p, _, err := spec.ReadPacket(r); return p, err }, pk},
 		{"enc.NameFromBytes", func(r enc.ParseReader) (any, error) { n, err := enc.NameFromBytes(r.Range(0, r.Length()).Join()); return n, err }, [][]byte{n1.Bytes(), kn.Bytes()}},
